@@ -21,6 +21,11 @@ STEP_A = 2000
 STEP_B = 20
 CALIBRATED_MAX_RATIO = 1.0
 
+# CPU-time limit (RLIMIT_CPU -> SIGXCPU): second net for loops that have no H1 site.  Generous by three orders of magnitude:
+# under ASan the tools need 0.01-0.1 s CPU for inputs below 100 kB and 0.5-5 s for the 2 MB shipped schemas (exp2cxx).
+CPU_A = 20
+CPU_BYTES_PER_S = 10000
+
 MAX_RC = 3          # "small positive": the tools use 1 (errors in input) and 2 (usage / cannot open)
 
 _DIAG = re.compile(r'ERROR|WARNING|[Ee]rror|[Uu]sage|[Ss]yntax|Bailing|[Cc]annot|[Cc]ould not|[Uu]nable|[Ii]nvalid|[Uu]nknown|'
@@ -71,6 +76,8 @@ def judge(r):
         return 'hang'
     if r.timed_out:
         return 'timeout'
+    if r.sig == 24:     # SIGXCPU
+        return 'hang (cpu limit)'
     if r.sig:
         return 'signal %d' % r.sig
     if r.rc < 0 or r.rc > MAX_RC:
@@ -116,7 +123,7 @@ def execute(data, tool, args=(), name='in.exp', path=None, timeout=60):
         else:
             n = os.path.getsize(path)
         r = run.run([os.path.join(b, 'bin', tool)] + list(args) + [path], cwd=wd, env=_state['env'], timeout=timeout,
-                    budget=budget_for(n), steplog=True)
+                    budget=budget_for(n), steplog=True, cpu=CPU_A + n // CPU_BYTES_PER_S)
         nfiles = sum(len(fs) for _, _, fs in os.walk(wd))
         return r, nfiles
     finally:
